@@ -24,6 +24,7 @@ def build(u):
     emit_error_enum(u)
     u.spec('vlq.rs')
     u.spec('vlq_tables.rs')
+    u.spec('vlq_canonical.rs')
     byte_string_const_to_array(u, 'src/vlq.rs', 'B64_CHARS')
     text, origin = u.get_item_text('src/vlq.rs', r'(?m)^const B64\b', 'const B64', semi=True)
     u.emit_text('vlq::B64', text, origin)
